@@ -5,6 +5,8 @@ import (
 	"runtime/debug"
 	"testing"
 	"testing/synctest"
+
+	"verif/harness/internal/simkit"
 )
 
 // Scripted regressions: fixed request sequences run through the same
@@ -30,8 +32,12 @@ func runScripted(t *testing.T, prof *profile, nClients int, body func(w *world))
 		body(w)
 		w.finish()
 	})
+	rec := simkit.NewRecorder(t, prof.property, "nfs40_regress_"+t.Name(), "scripted regression of a shrunk generated failure, run through the same world, reference model and oracles as the generated cases")
+	if failure == "" {
+		rec.Case(w.script, true, "regression")
+	}
 	if failure != "" {
-		t.Fatalf("%s\nscript:\n%s", failure, w.script1())
+		t.Fatalf("VERIF-VIOLATION property=%s: %s\nscript:\n%s", prof.property, failure, w.script1())
 	}
 }
 
